@@ -13,6 +13,7 @@ TRUSTED_BASE = [
     "Coq 8.16.1 kernel; Print Assumptions of every C17 theorem: closed under the global context (for every K with is_field K, feqb_ok K)",
     "hand-written model coq/Model/Sigs.v (BBS/PS sign, verify, honest proof-of-knowledge provers) and coq/Model/Pres.v (pok_verify, pok_items, hidden_message_proofs) of src/knox/{bbs,ps}/{signature,pok_signature,pok_signature_proof}.rs in the exponent model",
     "BBS e = hash(sk, msgs) and PS m' = hash(msgs), sigma_1 = hash-to-curve(m') are arbitrary values for the theorems; hash-derived bases carry pseudo-logs in executed cases",
+    "the BBS message generators of a key are treated as elements with hidden, independent logs; tie to the code: the harness recomputes them as hash-to-curve images of (per-key seed, index) — op d_bbs_gens, msg_gens.rs repeated — and compares with the key's generators, which must also be pairwise distinct",
     "correspondence: harness/src/ops_pok.rs (S::new_keys, Signature::create/verify, PokSignatureProof::{add_proof_contribution,verify,get_hidden_message_proofs} called directly with arbitrary revealed lists), lib/c17.py",
 ]
 ASSUMPTIONS = ["unforgeability itself (q-SDH / PS assumption) is assumed, not proved", "blind-then-unblinded signatures are covered by C16"]
@@ -150,6 +151,14 @@ def explore(ctx):
             failures.append({"class": None, "witness": True, "text": f"signature verifies after change '{ch}' ({o['suite']}, n={o['n']}); model {m}", "case": case})
         elif r["impl"] != m:
             failures.append({"class": None, "witness": False, "text": f"model/implementation correspondence broken (signature verify): impl={r['impl']} model={m} change={ch}", "case": case})
+    # the independence assumption on the BBS message generators
+    for n_, r_ in zip((1, 2, 5, 9, 16), C.run_exec([{"op": "d_bbs_gens", "n": k} for k in (1, 2, 5, 9, 16)])):
+        if r_.get("r") != "ok":
+            raise C.Infra("d_bbs_gens: " + json.dumps(r_)[:300])
+        if not (r_["same"] and r_["distinct"]):
+            failures.append({"class": None, "witness": False, "case": {"op": {"op": "d_bbs_gens", "n": n_}, "result": r_},
+                             "text": "correspondence broken: the BBS message generators of a key are not the independent hash-to-curve outputs (per-key seed, index) the theorems' "
+                                     "independence assumption rests on; a known relation between generators lets a holder move value between messages"})
     return {
         "evaluations": len(pok_ops) + len(sig_ops),
         "distinct_nontrivial": len(distinct),
